@@ -23,8 +23,9 @@
 // DataKind::Brotli / not done;  AuxBoxStart{xml, brotli_compressed: false, ..}  -> ensure_raw -> `panic!()` (aux_box.rs:59).
 // Through the public API: the 33-byte file  signature box | 00 00 00 0C "brob" "Exif" | 00 00 00 09 "xml " 'x' :
 // feed_bytes(file) = Err(InvalidData) having consumed 24 bytes; feed_bytes(&file[24..]) panics.
-// The obligation `refeed_after_failed_finalisation` below states the violated contract on the state that history leaves
-// behind (current_box = Brotli writer, not done); it is expected to FAIL until the code is repaired.
+// Native test: /verif/findings/c01_auxbox_refeed. The obligation `refeed_after_failed_finalisation` below states the
+// violated contract on the state that history leaves behind (current_box = Brotli writer, not done); it FAILS on the
+// unrepaired tree (CBMC: "explicit panic", aux_box.rs:59, in AuxBoxReader::ensure_raw).
 use super::*;
 
 // ---------------------------------------------------------------------------------------------------------------------
@@ -465,41 +466,24 @@ fn exif_new_contract() {
 // ---------------------------------------------------------------------------------------------------------------------
 // DESIGN.md section 7 item 5: a failed finalisation must not turn the next box into a panic
 // ---------------------------------------------------------------------------------------------------------------------
-/// Assumed behaviour of the external Brotli decoder on the EMPTY stream (what the native run shows): it consumes
-/// nothing, produces nothing and asks for more input.
-#[allow(non_snake_case)]
-fn stub_BrotliDecompressStream<
-    AllocU8: brotli_decompressor::Allocator<u8>,
-    AllocU32: brotli_decompressor::Allocator<u32>,
-    AllocHC: brotli_decompressor::Allocator<brotli_decompressor::HuffmanCode>,
->(
-    available_in: &mut usize,
-    input_offset: &mut usize,
-    _xinput: &[u8],
-    _available_out: &mut usize,
-    _output_offset: &mut usize,
-    _output: &mut [u8],
-    _total_out: &mut usize,
-    _s: &mut brotli_decompressor::BrotliState<AllocU8, AllocU32, AllocHC>,
-) -> brotli_decompressor::BrotliResult {
-    *input_offset += *available_in;
-    *available_in = 0;
-    brotli_decompressor::BrotliResult::NeedsMoreInput
-}
-
-/// The history of the module header, events exactly as the container parser emits them for
-///     brob box with an empty compressed payload | any plain box
-/// Contract (C01): every call returns Ok or Err. EXPECTED TO FAIL on the unrepaired tree at aux_box.rs:59.
+/// State left behind by  AuxBoxStart{ty, brotli_compressed: true, ..};  AuxBoxEnd(ty) -> Err  (the module header and
+/// findings/c01_auxbox_refeed give the native run that produces it; CBMC cannot execute the Brotli decoder itself -- no
+/// result in 900 s even with the stream decoder stubbed): current_box_ty = Some(ty), current_box = (Brotli writer, not
+/// done). The writer is built exactly as ensure_brotli builds it (the registry raises the unwinding bound of the one
+/// loop that fills its 1080-entry Huffman table). The parser has left the box, so the next event is the start of the
+/// next box. Contract (C01): handle_event returns Ok or Err. EXPECTED TO FAIL on the unrepaired tree at aux_box.rs:59.
 #[kani::proof]
 #[kani::unwind(8)]
 #[kani::stub(Jbrd::feed_bytes, stub_jbrd_feed_bytes)]
-#[kani::stub(brotli_decompressor::BrotliDecompressStream, stub_BrotliDecompressStream)]
 fn refeed_after_failed_finalisation() {
     let mut list = AuxBoxList::new();
-    let r1 = ok(list.handle_event(ParseEvent::AuxBoxStart { ty: ContainerBoxType::EXIF, brotli_compressed: true, last_box: false }));
-    let r2 = ok(list.handle_event(ParseEvent::AuxBoxEnd(ContainerBoxType::EXIF)));
-    kani::cover!(r1 && !r2); // the finalisation fails: the Brotli stream is incomplete
-    // JxlImage::feed_bytes returned that error; the caller feeds the rest of the file
-    let _ = ok(list.handle_event(ParseEvent::AuxBoxStart { ty: ContainerBoxType::XML, brotli_compressed: false, last_box: false }));
+    list.current_box_ty = Some(ContainerBoxType::EXIF);
+    list.current_box = AuxBoxReader {
+        data: DataKind::Brotli(Box::new(DecompressorWriter::new(Vec::<u8>::new(), 4096))),
+        done: false,
+    };
+    // JxlImage::feed_bytes returned the finalisation error; the caller feeds the rest of the file
+    let r = ok(list.handle_event(ParseEvent::AuxBoxStart { ty: ContainerBoxType::XML, brotli_compressed: false, last_box: kani::any() }));
+    kani::cover!(r || !r);
     std::mem::forget(list);
 }
